@@ -287,7 +287,7 @@ func c15Lit(t gen.T, r *rt.Rand) *gen.Node {
 	switch t {
 	case gen.TS:
 		// also literals with bytes a printer might want to escape (the language has no escapes)
-		return gen.Str([]string{"a", "b", "k1", "", "x y", "a\\b", "^k\\d+$", "t\tab", "caf\xc3\xa9", "\xff\xfe", "say \"hi\"", "100%", "\\", "k1!", "a<", "b>", "c^", "d~", "=", "!"}[r.Intn(20)])
+		return gen.Str([]string{"a", "b", "k1", "", "x y", "a\\b", "^k\\d+$", "t\tab", "caf\xc3\xa9", "\xff\xfe", "say \"hi\"", "100%", "\\", "k1!", "a<", "b>", "c^", "d~", "=", "!", "a;b", "c;", ";", "p,q;", "x and y", "(", "a) or (b"}[r.Intn(27)])
 	case gen.TN:
 		if r.Chance(1, 4) {
 			return gen.Float([]string{"0.5", "1.5", "2.0"}[r.Intn(3)])
@@ -445,6 +445,21 @@ func (k c15) betweenBounds(c *rt.Ctx) {
 		left = gen.Bin("+", gen.Call("int", gen.Value()), gen.Int(1))
 	}
 	tree := gen.Between(left, arith(r.Range(1, 3)), arith(r.Range(1, 3)))
+	if r.Chance(1, 4) {
+		// a text BETWEEN whose bounds hold a call with the keywords and / or inside its argument:
+		// the AND of BETWEEN belongs to the outermost level only
+		inner := gen.And(gen.Bin("=", gen.Value(), gen.Str("v1")), gen.Bin("=", gen.Key(), gen.Str("k1")))
+		inner.Sym = false
+		lowB := gen.Call("str", inner)
+		var upB *gen.Node = gen.Str("z")
+		if r.Bool() {
+			in2 := gen.Or(gen.Bin("^=", gen.Key(), gen.Str("k")), gen.Bin("=", gen.Value(), gen.Str("x")))
+			in2.Sym = false
+			upB = gen.Call("upper", gen.Call("str", in2))
+		}
+		tree = gen.Between(gen.Key(), lowB, upB)
+		c.Rec.Inc("between_bounds_with_keyword_operators_inside_calls")
+	}
 	if r.Chance(1, 3) {
 		tree = gen.And(tree, gen.Bin("^=", gen.Key(), gen.Str("k")))
 	}
